@@ -689,8 +689,18 @@ func c09GetPermission(c *Ctx) {
 	}
 	ff := p.Facts().Analyze(fs)
 	info := fs.Pkg.TypesInfo
-	uname := fs.localVar("username")
-	perms := fs.localVar("perms")
+	// the name and the permissions handed out: what the successful returns return
+	var uname, perms types.Object
+	for _, ret := range ff.Returns() {
+		if len(ret.Results) == 3 && isNilIdent(info, ret.Results[2]) {
+			if a, ok := unparen(ret.Results[0]).(*ast.Ident); ok && uname == nil {
+				uname = info.Uses[a]
+			}
+			if b, ok := unparen(ret.Results[1]).(*ast.Ident); ok && perms == nil {
+				perms = info.Uses[b]
+			}
+		}
+	}
 	fCredUser := p.Field("group", "ClientCredentials", "Username")
 	fTok := p.Field("group", "ClientCredentials", "Token")
 	if uname == nil || perms == nil || fCredUser == nil || fTok == nil {
